@@ -14,6 +14,13 @@ open Parsley Parsley.Prim Parsley.Obj Driver
                            extra last element `[7]`, one level deeper than the others
     `run  <d> <N> <kind> <p> a|d|m`
                            LENGTH profile: one scalar / white-space / comment run of N units (see `runLeaf`) inside p wrappers
+    `at <k0> <case>`       any of the above on a context whose depth is ALREADY k0 <= d (the harness: k0 calls of the public
+                           `enter_obj()` before `parse_pdf_obj`; the model: `parseObj ⟨k0, d⟩`); the depth delta is depth after
+                           the parse - k0; afterwards the harness leaves min(k0, depth) times (never trips `leave_obj`'s assert)
+    `seq <d> <k0> ; <step> ; <step> [; <step>]`
+                           several parses on ONE context of bound d and starting depth k0, a fresh buffer each; a step is a
+                           case without its bound word (`nest <hex> <k>`, `cut <hex>`, `deep <n> arr`, ...); output: the steps'
+                           lines joined by ` ; `, each with the delta depth after the step - depth before the step
     Output for `wide` / `run` (harness and model): `ok <start> <stop> <cursor> <depth delta> dg n=<nodes> k=<depth>
     w=<largest number of children> h=<order-sensitive checksum>` or `err <kind> <delta>`: a digest instead of the value, to keep
     the lines short.  The harness runs EVERY C16 case on a thread with a fixed 1 MiB stack. -/
@@ -210,11 +217,11 @@ def Big.depth (b : Big) : Nat := b.prof.length + b.leaf.depth
 
 /-- what the description denotes (spec side; the parser model is not consulted): the output line of an accepted case,
     `none` when the input is not an object or nests deeper than the bound -/
-def Big.expected (b : Big) : Option String :=
+def Big.expected (b : Big) (k0 : Nat := 0) : Option String :=
   match b.leaf.dg with
   | none => none
   | some g =>
-    if b.depth > b.d then none
+    if k0 + b.depth > b.d then none   -- k0: the depth the context already has before the call
     else
       let pre := (b.prof.flatMap opener).length
       let stop := pre + b.leaf.len + (b.prof.flatMap closer).length
@@ -236,77 +243,140 @@ def inputOf (w : List String) : Option (Nat × Bytes) :=
       let opener : Bytes := if kind == "dict" then [60, 60, 47, 75, 32] else [91]
       some (d, (List.replicate n opener).flatten)
     | _, _ => none
-  | _ :: d :: hex :: _ =>
-    match d.toNat?, bytesOfHex hex with
-    | some d, some s => some (d, s)
-    | _, _ => none
+  | kind :: d :: hex :: _ =>
+    if kind == "nest" || kind == "cut" then
+      match d.toNat?, bytesOfHex hex with
+      | some d, some s => some (d, s)
+      | _, _ => none
+    else none
   | _ => none
 
-def model (line : String) : String :=
-  match bigOf (words line) with
+/-- one parse of the case `w` (with its bound word) by the model on a context of current depth `cur`: the output line
+    and the depth afterwards (the model threads it: `parseObj` returns the context) -/
+def modelStep (cur : Nat) (w : List String) : String × Nat :=
+  match bigOf w with
   | some b =>
-    if b.modelRuns then
-      let (r, c) := parseObj ⟨0, b.d⟩ b.bytes 0
-      let delta : Int := (c.cur : Int) - 0
+    if cur > b.d then ("bad-case", cur)
+    else if b.modelRuns then
+      let (r, c) := parseObj ⟨cur, b.d⟩ b.bytes 0
+      let delta : Int := (c.cur : Int) - cur
       match r with
-      | (.ok v, k) => s!"ok {v.start} {v.stop} {k} {delta} {(dgObj v.val).show}"
-      | (.err e, _) => s!"err {e} {delta}"
-      | (.panic p, _) => s!"panic {p}"
-    else (b.expected).getD "err guard 0"
+      | (.ok v, k) => (s!"ok {v.start} {v.stop} {k} {delta} {(dgObj v.val).show}", c.cur)
+      | (.err e, _) => (s!"err {e} {delta}", c.cur)
+      | (.panic p, _) => (s!"panic {p}", c.cur)
+    else ((b.expected cur).getD "err guard 0", cur)
   | none =>
-  match inputOf (words line) with
+  match inputOf w with
   | some (d, s) =>
-    let (r, c) := parseObj ⟨0, d⟩ s 0
-    let delta : Int := (c.cur : Int) - 0
+    if cur > d then ("bad-case", cur)
+    else
+    let (r, c) := parseObj ⟨cur, d⟩ s 0
+    let delta : Int := (c.cur : Int) - cur
     match r with
-    | (.ok v, k) => s!"ok {v.start} {v.stop} {k} {delta} {objSexp v.val}"
-    | (.err e, _) => s!"err {e} {delta}"
-    | (.panic p, _) => s!"panic {p}"
-  | none => "bad-case"
+    | (.ok v, k) => (s!"ok {v.start} {v.stop} {k} {delta} {objSexp v.val}", c.cur)
+    | (.err e, _) => (s!"err {e} {delta}", c.cur)
+    | (.panic p, _) => (s!"panic {p}", c.cur)
+  | none => ("bad-case", cur)
+
+/-- split a word list at the `;` words -/
+def splitSemi (ws : List String) : List (List String) :=
+  let (cur, acc) := ws.foldl (fun (st : List String × List (List String)) x =>
+    if x == ";" then ([], st.1.reverse :: st.2) else (x :: st.1, st.2)) ([], [])
+  (cur.reverse :: acc).reverse
+
+/-- the steps of a `seq` case, each completed with the bound word -/
+def stepsOf (d : String) (rest : List String) : List (List String) :=
+  ((splitSemi rest).filter (· ≠ [])).map fun st =>
+    match st with
+    | kind :: args => kind :: d :: args
+    | [] => []
+
+def model (line : String) : String :=
+  match words line with
+  | "seq" :: d :: k0 :: rest =>
+    match d.toNat?, k0.toNat? with
+    | some dn, some k0 =>
+      if k0 > dn then "bad-case"
+      else
+        let (outs, _) := (stepsOf d rest).foldl (fun (acc : List String × Nat) st =>
+          let (o, cur') := modelStep acc.2 st
+          (o :: acc.1, cur')) ([], k0)
+        " ; ".intercalate outs.reverse
+    | _, _ => "bad-case"
+  | "at" :: k0 :: rest =>
+    match k0.toNat? with
+    | some k0 => (modelStep k0 rest).1
+    | none => "bad-case"
+  | w => (modelStep 0 w).1
 
 /-- oracle for the width / length profiles, from the description alone -/
-def judgeBig (b : Big) (impl : String) : String :=
+def judgeBig (b : Big) (impl : String) (k0 : Nat := 0) : String :=
   let iw := words impl
   let v := iw.headD "?"
   if v.startsWith "crash" || v == "hang" || v == "panic" then
     s!"bad crash-on-wide-input impl={v} leaf-bytes={b.leaf.len} nesting={b.depth} d={b.d}"
   else
-    match b.expected, iw with
+    match b.expected k0, iw with
     | some want, "ok" :: _ :: _ :: _ :: delta :: _ =>
       if delta != "0" then "bad depth-not-restored"
       else if impl.trimAscii.toString == want then "ok"
       else s!"bad wide-wrong-value want={want}"
     | some _, ["err", _, delta] =>
       if delta != "0" then "bad depth-not-restored"
-      else s!"bad valid-within-bound-rejected k={b.depth} d={b.d}"
+      else s!"bad valid-within-bound-rejected k={b.depth} d={b.d} from={k0}"
     | none, ["err", _, delta] => if delta != "0" then "bad depth-not-restored" else "ok"
     | none, "ok" :: _ =>
-      if b.leaf.dg.isSome then s!"bad deeper-than-bound-accepted k={b.depth} d={b.d}" else "bad non-object-accepted"
+      if b.leaf.dg.isSome then s!"bad deeper-than-bound-accepted k={b.depth} d={b.d} from={k0}" else "bad non-object-accepted"
     | _, _ => "bad panic-or-crash"
 
-def judge (case impl : String) : String :=
-  let w := words case
+/-- oracle for ONE parse (case words `w`, with the bound word) on a context whose depth before the call is `k0` (by the
+    property itself: the starting depth of the case, since every earlier step left the depth as it was).  From the spec
+    side: the depth after = the depth before for EVERY outcome; an object is accepted iff k0 + its nesting <= d. -/
+def judgeStep (k0 : Nat) (w : List String) (impl : String) : String :=
   let iw := words impl
   match bigOf w with
-  | some b => judgeBig b impl
+  | some b => judgeBig b impl k0
   | none =>
   match w, iw with
   | "nest" :: d :: _ :: k :: _, "ok" :: _ :: _ :: _ :: delta :: sexp =>
-    if delta != "0" then "bad depth-not-restored"
-    else if k.toNat! > d.toNat! then s!"bad deeper-than-bound-accepted k={k} d={d}"
+    if delta != "0" then s!"bad depth-not-restored delta={delta} from={k0}"
+    else if k0 + k.toNat! > d.toNat! then s!"bad deeper-than-bound-accepted k={k} d={d} from={k0}"
     else if sexpDepth (" ".intercalate sexp) > k.toNat! then s!"bad value-deeper-than-input"
     else "ok"
   | "nest" :: d :: _ :: k :: _, ["err", _, delta] =>
-    if delta != "0" then "bad depth-not-restored"
-    else if k.toNat! ≤ d.toNat! then s!"bad valid-within-bound-rejected k={k} d={d}"
+    if delta != "0" then s!"bad depth-not-restored delta={delta} from={k0}"
+    else if k0 + k.toNat! ≤ d.toNat! then s!"bad valid-within-bound-rejected k={k} d={d} from={k0}"
     else "ok"
   | _ :: d :: _, "ok" :: _ :: _ :: _ :: delta :: sexp =>
-    if delta != "0" then "bad depth-not-restored"
-    else if sexpDepth (" ".intercalate sexp) > d.toNat! then "bad deeper-than-bound-accepted"
+    if delta != "0" then s!"bad depth-not-restored delta={delta} from={k0}"
+    else if k0 + sexpDepth (" ".intercalate sexp) > d.toNat! then s!"bad deeper-than-bound-accepted from={k0}"
     else if w.head? == some "deep" then "bad unclosed-accepted"
     else "ok"
-  | _, ["err", _, delta] => if delta != "0" then "bad depth-not-restored" else "ok"
+  | _, ["err", _, delta] => if delta != "0" then s!"bad depth-not-restored delta={delta} from={k0}" else "ok"
   | _, _ => "bad panic-or-crash"
+
+def judge (case impl : String) : String :=
+  match words case with
+  | "seq" :: d :: k0 :: rest =>
+    let steps := stepsOf d rest
+    let outs := impl.splitOn " ; "
+    let v := (words impl).headD "?"
+    if v.startsWith "crash" || v == "hang" || v == "panic" then s!"bad panic-or-crash impl={v}"
+    else if steps.length != outs.length || steps.isEmpty then "bad panic-or-crash"
+    else
+      -- the first step whose verdict is not `ok`, with its index
+      let rec go (i : Nat) : List (List String) → List String → String
+        | st :: ss, o :: os =>
+          let j := judgeStep k0.toNat! st o
+          if j == "ok" then go (i + 1) ss os
+          else
+            match words j with
+            | "bad" :: cls :: more => s!"bad {cls} step={i + 1} {" ".intercalate more}"
+            | _ => j
+        | _, _ => "ok"
+      go 0 steps outs
+  | "at" :: k0 :: rest => judgeStep k0.toNat! rest impl
+  | w => judgeStep 0 w impl
 
 /-- a nesting profile: openers (0 = array, 1 = dictionary value, 2 = array with a leading sibling) -/
 def render (profile : List Nat) (leaf : Bytes) : Bytes :=
@@ -321,6 +391,33 @@ def leaves : List Bytes := [[55], [110, 117, 108, 108], [40, 97, 41], [47, 78], 
 def elemKinds : List String := ["int", "name", "str", "earr", "arr1", "null", "ref", "dict1", "hex", "real", "bool", "edict"]
 def runKinds : List String := ["str", "strp", "stre", "name", "namex", "hex", "hexws", "zeros", "nines", "frac", "ws", "crlf", "cmt", "cmt1",
   "arrws", "arrcmt", "dictws", "kvws", "refws", "bigkey"]
+
+/-! ### starting depth > 0 and several parses on one context (after missed seed C16_6) -/
+
+/-- starting depths of the context for a bound d: 1, 2, d/2, d-1, d -/
+def startDepths (d : Nat) : List Nat := ([1, 2, d / 2, d - 1, d].filter fun k => 1 ≤ k && k ≤ d).eraseDups
+
+def profOf (kind openers : Nat) : List Nat := (List.range openers).map fun j => if kind == 2 then j % 3 else kind
+
+/-- a step (a case without its bound word): a valid object of nesting depth t >= 1 -/
+def nestStep (kind t : Nat) : String := s!"nest {hexOfBytes (render (profOf kind (t - 1)) [55])} {t}"
+
+/-- a step: a syntax error AT DEPTH - an object of nesting depth t cut after its openers (0: the leaf is missing), after the
+    leaf (1: no closer at all), before its last closing byte (2) -/
+def cutStep (kind t pos : Nat) : String :=
+  let prof := profOf kind (t - 1)
+  let s := render prof [55]
+  let pre := (prof.flatMap opener).length
+  let cut := if pos == 0 then pre else if pos == 1 then pre + 1 else s.length - 1
+  s!"cut {hexOfBytes (s.take cut)}"
+
+/-- a step completed with its bound word -/
+def withD (d : Nat) (step : String) : String :=
+  match words step with
+  | kind :: args => " ".intercalate (kind :: toString d :: args)
+  | [] => ""
+
+def seqCase (d k0 : Nat) (steps : List String) : String := s!"seq {d} {k0} ; " ++ " ; ".intercalate steps
 
 def gen (seed n : Nat) (tier : String) (emit : String → IO Unit) : IO Unit := do
   let mut r := Rng.mk' seed
@@ -403,15 +500,123 @@ def gen (seed n : Nat) (tier : String) (emit : String → IO Unit) : IO Unit := 
       if nn == 1000 then emit s!"run 3 {nn} {kind} 2 a"        -- one beyond the bound (kvws / bigkey: two)
     jj := jj + 1
 
-/-- non-trivial: at least two levels of nesting in the input; width / length profiles: at least 1000 units -/
-def nontrivial (line : String) : Bool :=
-  match words line with
+
+  -- ===== every case kind from a context whose depth is ALREADY k0 in {1, 2, d/2, d-1, d} (`at`), and sequences of two and
+  -- three parses on ONE context (`seq`); rem = d - k0 levels remain
+  -- nesting profiles just below, at, and above what remains: every bound x every starting depth x 3 opener kinds
+  for d in List.range 65 do
+    for k0 in startDepths d do
+      for kind in [0, 1, 2] do
+        for off in [0, 1, 2, 3] do
+          -- nesting depth t = rem - 1 + off
+          if d - k0 + off ≥ 2 then
+            let t := d - k0 + off - 1
+            if kind == 0 || t ≥ 2 then emit s!"at {k0} {withD d (nestStep kind t)}"
+  -- sequences: a bound rejection followed by what must still be accepted / rejected, acceptance then rejection, two
+  -- rejections in a row, bound rejections interleaved with syntax errors at depth; the starting depth 0 too
+  for d in List.range 65 do
+    for k0 in (0 :: startDepths d) do
+      let rem := d - k0
+      for kind in (if thorough then [0, 1, 2] else [(d + k0) % 3]) do
+        let acc := if rem ≥ 1 then [nestStep kind rem] else []        -- exactly at the bound: accepted
+        let rej := nestStep kind (rem + 1)                               -- one beyond: rejected by the bound
+        let rej2 := nestStep kind (rem + 2)
+        let syn (pos : Nat) := cutStep kind (Nat.max rem 1) pos         -- a syntax error as deep as allowed
+        emit (seqCase d k0 ([rej] ++ acc ++ [rej]))                     -- reject, accept at the bound, reject again
+        emit (seqCase d k0 (acc ++ [rej] ++ acc))                       -- accept, reject, accept
+        emit (seqCase d k0 [rej, rej, rej2])                            -- two rejections must not add up to one more level
+        emit (seqCase d k0 [rej, rej])
+        emit (seqCase d k0 ([syn 0, rej] ++ acc))                       -- syntax error at depth, bound rejection, accept
+        emit (seqCase d k0 [rej, syn 2, rej])                           -- bound rejection, syntax error, same rejection again
+        emit (seqCase d k0 ([rej2, syn 1] ++ acc))
+        if rem ≥ 2 then
+          emit (seqCase d k0 [nestStep kind (rem - 1), rej, rej2])
+          emit (seqCase d k0 [s!"deep {1000 + d} {if kind == 1 then "dict" else "arr"}", rej, nestStep kind rem])
+  -- random profiles, leaves and truncations from a random starting depth, and random sequences of them
+  let mut r2 := Rng.mk' (seed + 7919)
+  let mut recent : List String := []
+  for it in List.range (if thorough then n / 3 else n / 2) do
+    let (d0, ra) := r2.nat 12
+    let d := d0 + 1
+    let (kc, rb) := ra.nat 3
+    let (kr, rc) := rb.nat d
+    let k0 := if kc == 0 then kr + 1 else (startDepths d)[kr % (startDepths d).length]?.getD 1
+    let (len, rd) := rc.nat 14
+    let (prof, re) := (List.range len).foldl (fun (acc : List Nat × Rng) _ =>
+      let (o, r) := acc.2.nat 3; (o :: acc.1, r)) ([], rd)
+    let (leaf, rf) := re.pick leaves
+    let s := render prof leaf
+    let (cut, rg) := rf.nat (s.length + 1)
+    let st1 := s!"nest {hexOfBytes s} {len + 1}"
+    let st2 := s!"cut {hexOfBytes (s.take cut)}"
+    emit s!"at {k0} {withD d st1}"
+    emit s!"at {k0} {withD d st2}"
+    recent := (st1 :: st2 :: recent).take 8
+    r2 := rg
+    if it % 2 == 1 then
+      let (sd, rh) := r2.nat 12
+      let (sk, ri) := rh.nat (sd + 1)
+      let (a, rj) := ri.pick recent
+      let (b, rk) := rj.pick recent
+      let (c, rl) := rk.pick recent
+      let (three, rm) := rl.nat 2
+      r2 := rm
+      emit (seqCase sd sk (if three == 1 then [a, b, c] else [a, b]))
+  -- unclosed nesting from a starting depth
+  for nn in deeps do
+    for d in [1, 50, 64] do
+      for k0 in startDepths d do
+        emit s!"at {k0} deep {d} {nn} {if (d + k0) % 2 == 0 then "arr" else "dict"}"
+  -- WIDTH profiles from a starting depth: the wide level at position 1, rem/2, rem-1 (elements exactly at the bound) and
+  -- rem (one beyond: rejected); k0 = d: everything is rejected
+  let mut wi := 0
+  for d in [2, 3, 50, 64] do
+    for k0 in startDepths d do
+      let rem := d - k0
+      for shape in ["arr", "dict"] do
+        for q in ([1, rem / 2, rem - 1, rem].filter (· ≥ 1)).eraseDups do
+          let e := elemKinds[wi % elemKinds.length]?.getD "int"
+          let wrap := ["a", "d", "m"][wi % 3]?.getD "a"
+          emit s!"at {k0} wide {d} 300 {shape} {e} {q - 1} {wrap} -"
+          if thorough || wi % 4 == 0 then emit s!"at {k0} wide {d} 1000 {shape} {elemKinds[(wi + 5) % elemKinds.length]?.getD "int"} {q - 1} {wrap} -"
+          if thorough || wi % 4 == 2 then emit s!"at {k0} wide {d} 10000 {shape} {elemKinds[(wi + 7) % elemKinds.length]?.getD "int"} {q - 1} {wrap} -"
+          if wi % 2 == 0 then emit s!"at {k0} wide {d} 300 {shape} {elemKinds[wi % 10]?.getD "int"} {q - 1} m deep"
+          wi := wi + 1
+  emit "at 1 wide 2 100000 arr int 0 a -"
+  emit "at 32 wide 64 100000 dict name 30 m -"
+  emit "at 63 wide 64 100000 arr int 0 a -"
+  emit (seqCase 3 1 ["wide 100000 arr int 1 a -", "wide 10000 arr int 0 a -", "wide 10000 arr earr 1 d -"])
+  emit (seqCase 64 32 ["wide 1000 dict arr1 30 m -", "wide 1000 dict int 30 m -", "wide 1000 dict arr1 30 m -"])
+  -- LENGTH profiles from a starting depth: at the bound and one beyond
+  let mut rj2 := 0
+  for kind in runKinds do
+    let ld := if kind == "kvws" || kind == "bigkey" then 2 else 1
+    for (d, k0) in [(2, 1), (3, 1), (64, 32), (64, 62), (50, 2), (3, 3)] do
+      if d - k0 ≥ ld || d == k0 then
+        let p := d - k0 - ld
+        let wrap := ["a", "d", "m"][rj2 % 3]?.getD "a"
+        emit s!"at {k0} run {d} 1000 {kind} {p} {wrap}"
+        if d != k0 then emit s!"at {k0} run {d} 1000 {kind} {p + 1} {wrap}"
+        if thorough || rj2 % 6 == 0 then emit s!"at {k0} run {d} 10000 {kind} {p} {wrap}"
+        if thorough then emit s!"at {k0} run {d} 100000 {kind} {p} {wrap}"
+        rj2 := rj2 + 1
+    emit (seqCase 3 1 [s!"run 1000 {kind} 2 a", s!"run 1000 {kind} {2 - ld} a", s!"run 1000 {kind} 2 m"])
+
+/-- non-trivial: at least two levels of nesting in the input; width / length profiles: at least 1000 units; `at`: starting
+    depth >= 1 and the inner case non-trivial; `seq`: at least two steps, one of them non-trivial -/
+def nontrivialW : List String → Bool
   | "nest" :: _ :: _ :: k :: _ => k.toNat! ≥ 2
   | "cut" :: _ :: hex :: _ => hex.length ≥ 6
   | "deep" :: _ => true
   | "wide" :: _ :: n :: _ => n.toNat! ≥ 1000
   | "run" :: _ :: n :: _ => n.toNat! ≥ 1000
   | _ => false
+
+def nontrivial (line : String) : Bool :=
+  match words line with
+  | "at" :: k0 :: rest => k0.toNat! ≥ 1 && nontrivialW rest
+  | "seq" :: d :: _ :: rest => let st := stepsOf d rest; st.length ≥ 2 && st.any nontrivialW
+  | w => nontrivialW w
 
 def driver : PropDriver := { gen, model, judge, nontrivial }
 end Driver.C16
